@@ -36,8 +36,9 @@ def check(run, repo):
         'the order of the amounts, and the Jacobian handed over is its exact gradient (symbolic differentiation, 2-4 '
         'species); (c) the equality constraint is x.M - feed.M-totals over the element matrix, its Jacobian is M '
         'transposed (the derivative of the constraint); (d) the lower bound of every amount is a positive constant; '
-        '(e) the returned mole fractions are x / sum(x) of the solver\'s amounts. In __init__ the feed totals are '
-        'computed from the final element matrix.')
+        '(e) the returned mole fractions are x / sum(x) of the solver\'s amounts. (f) Equilibrium.__init__ is interpreted '
+        'for networks over 1-4 elements with concrete compositions and symbolic feeds, in both species orders: element '
+        'list, element matrix (atoms of element j in species i), feed element totals and molar masses.')
     run.assumptions = ['scipy.optimize.minimize is an uninterpreted solver; SLSQP behaviour is not modelled']
     run.undecided = ['atom conservation, optimality and order independence of the returned composition as numeric '
                      'facts (SLSQP)', 'reaction equilibrium within solver tolerance']
